@@ -211,11 +211,14 @@ class Check:
                 if self.module is not None and hasattr(self.module, "replay") and shown < 10:
                     r1 = self._replay(case)
                     r2 = self._replay(case)
-                    if r1 != r2:
-                        print("HARNESS-ERROR property=%s replay of %r is not deterministic: %r vs %r" % (self.prop, key, r1, r2))
-                        self._write_evidence(len(new), harness_error=True)
-                        return 2
-                    status = "reproduced" if r1 else "not-reproduced-in-isolation"
+                    if r1 and r2 and r1 == r2:
+                        status = "reproduced"
+                    elif r1 or r2:
+                        # the isolated replays disagree with each other: the violation found by the
+                        # exploration stands, but say so (history- or timing-dependent behaviour)
+                        status = "reproduced-unstable (%r / %r)" % (r1, r2)
+                    else:
+                        status = "not-reproduced-in-isolation"
                 digest = hashlib.sha1(key.encode("utf-8", "surrogateescape")).hexdigest()[:16]
                 path = os.path.join(REPLAY_DIR, self.prop, digest + ".json")
                 with open(path, "w") as f:
